@@ -761,6 +761,7 @@ impl Stream for WriteStream {
     }
 
     fn run(&self, line: &str) -> String {
+        if line.starts_with("write.big ") { return "oracle-only".into(); }
         let (_, a) = parse_line(line);
         let calls: Vec<String> = a.get("calls").map(|c| c.split(';').map(|s| s.to_string()).collect()).unwrap_or_default();
         if calls.is_empty() { return "bad-op".into(); }
@@ -771,12 +772,13 @@ impl Stream for WriteStream {
         s
     }
 
-    fn nontrivial(&self, _line: &str, resp: &str) -> bool {
-        resp.contains("final=") && resp.matches(" ok").count() >= 2
+    fn nontrivial(&self, line: &str, resp: &str) -> bool {
+        line.starts_with("write.big ") || resp.contains("final=") && resp.matches(" ok").count() >= 2
     }
 
     fn oracle(&self, line: &str, resp: &str) -> Vec<OracleFailure> {
         let mut f = vec![];
+        if line.starts_with("write.big ") { return oracle_append_big(line); }
         if resp.contains("panic") {
             f.push(OracleFailure { what: format!("a writer call panicked: {}", &resp[..resp.len().min(160)]) });
             return f;
@@ -1239,6 +1241,32 @@ fn oracle_append(calls: &[String], srcs: &[Vec<u8>]) -> Vec<OracleFailure> {
     f
 }
 
+/// `write.big n=<entries> prefix=<bytes> rounds=<calls>|<calls>|...` (oracle-only): a foreign base with `n` empty
+/// stored entries behind a prepended stub of `prefix` bytes (ZIP64 end record + locator from 65536 entries on, offsets
+/// relative to the archive proper), then one append round per `rounds` item, each on the previous round's output,
+/// each judged by the append oracle (old entries unchanged, new ones appended, comment, strict parser on the result).
+fn oracle_append_big(line: &str) -> Vec<OracleFailure> {
+    let (_, a) = parse_line(line);
+    let n = get_u64(&a, "n").unwrap_or(0) as usize;
+    let prefix = get_u64(&a, "prefix").unwrap_or(0) as usize;
+    let rounds: Vec<String> = a.get("rounds").map(|c| c.split('|').map(|s| s.to_string()).collect()).unwrap_or_default();
+    let entries: Vec<crate::mkzip::Entry> = (0..n).map(|i| crate::mkzip::Entry::stored(format!("{:05x}", i).as_bytes(), b"")).collect();
+    let mut l = crate::mkzip::Layout::new(entries);
+    l.prefix = (0..prefix).map(|i| b"#!/bin/sh stub\n"[i % 15]).collect();
+    let mut base = crate::mkzip::build(&l).bytes;
+    let mut f = vec![];
+    for (k, round) in rounds.iter().enumerate() {
+        let mut calls = vec![format!("ap,{}", hex(&base))];
+        calls.extend(round.split(';').map(|s| s.to_string()));
+        let ro = run_calls(&calls, &[]);
+        if ro.tokens.iter().any(|t| t.contains("panic")) { f.push(OracleFailure { what: format!("append round {k} onto a base of {n} entries: a writer call panicked: {}", ro.tokens.join(" ")) }); return f; }
+        if !ro.finished_ok { f.push(OracleFailure { what: format!("append round {k} onto a base of {n} entries did not finish: {}", ro.tokens.join(" ")) }); return f; }
+        for of in oracle_append(&calls, &[]) { f.push(OracleFailure { what: format!("{} (round {k}, base of {n}+ entries behind a {prefix}-byte stub)", of.what) }); }
+        match ro.fin { Some(b) => base = b, None => return f }
+    }
+    f
+}
+
 fn foreign_base(r: &mut Rng) -> Vec<u8> {
     let (mut l, _) = super::read::rand_layout(r);
     // appendable bases: this crate's reader must open them; keep names ASCII so that re-emitted central
@@ -1297,7 +1325,7 @@ fn gen_append_long_names(g: &mut GenOut, seed: u64, tier: &str) {
 
 fn gen_append(seed: u64, tier: &str) -> GenOut {
     let mut g = GenOut::default();
-    g.rule = "histories write -> (append k_i entries)* : base archives from this crate's writer, from the independent builder (prefix, descriptors, ZIP64 records, made-by variants) and from earlier rounds; every 12th history from a foreign base with unflagged CP437 names (K-A2); foreign bases with a name that decodes to 65534..65538 UTF-8 bytes (A6: accepted up to 65535, refused above, sink untouched); 0..R rounds (R = 4 quick, 12 thorough), every method, comment changes between rounds, append-nothing rounds; each round is one op line whose base is the previous round's output. non-trivial = the round finished and the base had at least one entry".into();
+    g.rule = "histories write -> (append k_i entries)* : base archives from this crate's writer, from the independent builder (prefix, descriptors, ZIP64 records, made-by variants) and from earlier rounds; every 12th history from a foreign base with unflagged CP437 names (K-A2); foreign bases with a name that decodes to 65534..65538 UTF-8 bytes (A6: accepted up to 65535, refused above, sink untouched); oracle-only `write.big`: bases of 65535 / 65536 (thorough: 65534..70000) entries with ZIP64 end records behind a prepended stub, three rounds each; 0..R rounds (R = 4 quick, 12 thorough), every method, comment changes between rounds, append-nothing rounds; each round is one op line whose base is the previous round's output. non-trivial = the round finished and the base had at least one entry".into();
     let (n, rounds) = if tier == "thorough" { (4000, 12) } else { (220, 4) };
     for i in 0..n {
         let mut r = super::rng_for(seed, "append", i);
@@ -1319,6 +1347,17 @@ fn gen_append(seed: u64, tier: &str) -> GenOut {
         }
     }
     gen_append_long_names(&mut g, seed, tier);
+    // bases with more than 65535 entries (ZIP64 end records) behind a prepended stub, three rounds: new entries /
+    // nothing but a new comment / new entries again.  Oracle-only (the model is list based); deterministic, so not
+    // repeated for the further seeds of the quick tier
+    if tier != "quickx" {
+        let o = Opts { method: 0, level: None, dp: 0x5821, tp: 0, perm: None, large: false, pw: None };
+        let o8 = Opts { method: 8, ..o.clone() };
+        let rounds = format!("sf,{},{};w,{};fin|c,{};fin|dir,{},{};sf,{},{};w,{};fin", hex(b"new-1"), o.tok(), hex(b"first round"), hex(b"comment of round two"),
+            hex(b"d"), o.tok(), hex(b"d/new-2"), o8.tok(), hex(b"third round third round third round"));
+        let scen: &[(usize, usize)] = if tier == "thorough" { &[(65534, 0), (65535, 0), (65535, 70), (65536, 0), (65536, 70), (65537, 4096), (70000, 70)] } else { &[(65536, 70), (65535, 0)] };
+        for (n, p) in scen { g.push("big-base", format!("write.big n={n} prefix={p} rounds={rounds}")); }
+    }
     g
 }
 
